@@ -446,8 +446,15 @@ func oneFault(ctx context.Context, c *Case, k int, cacheCalls []vlib.CacheCall, 
 			a.h.FreeSlot(res.TxID)
 		}
 	}
-	// retry T with the fault gone
-	res2 := a.h.SubmitStep(c.T)
+	// retry T with the fault gone; a retry that never returns (a lock the failed attempt left behind) is no convergence
+	var res2 *vlib.StepResult
+	retryCh := make(chan *vlib.StepResult, 1)
+	go func() { retryCh <- a.h.SubmitStep(c.T) }()
+	select {
+	case res2 = <-retryCh:
+	case <-time.After(40 * time.Second):
+		return vlib.Failf("C07:retry-does-not-return:"+c.Target+":"+c.Kind, "%s: repeating T after the fault is gone has not returned after 40 s", where), true, phase
+	}
 	if !res2.OK {
 		sig := "C07:retry-refused:" + c.Target + ":" + c.Kind
 		if res2.Err != nil && errors.Is(res2.Err, vlib.ErrSchemaInjected) || strings.Contains(res2.ErrText(), "injected schema") {
